@@ -115,7 +115,7 @@ def parse_verdicts(lines):
 # --------------------------------------------------------------------------- universe / harness
 def ensure_universe(force=False):
     marker = os.path.join(UNIVERSE, "DONE")
-    src = [os.path.join(SPEC, f) for f in ("Universe.tla", "GenUniverse.tla", "JsonValue.tla")]
+    src = [os.path.join(SPEC, f) for f in ("Universe.tla", "GenUniverse.tla", "JsonValue.tla", "GenHunks.tla", "DiffText.tla", "Patch.tla")]
     stamp = hashlib.sha256(b"".join(open(f, "rb").read() for f in src)).hexdigest()
     if not force and os.path.exists(marker) and open(marker).read().strip() == stamp:
         return
@@ -128,6 +128,9 @@ def ensure_universe(force=False):
         r = run_tlc(sc, "GenUniverse", "", env={"JDV_OUT": UNIVERSE}, workers=1, timeout=1200)
         if not tlc_ok(r):
             raise Infra("universe export failed:\n" + tlc_error_text(r))
+        r = run_tlc(sc, "GenHunks", "INIT GenInit\nNEXT GenNext\n", env={"JDV_OUT": UNIVERSE}, workers=1, timeout=1200)
+        if not tlc_ok(r):
+            raise Infra("hunk export failed:\n" + tlc_error_text(r))
     finally:
         sc.close()
     with open(marker, "w") as f:
